@@ -1,11 +1,20 @@
 #!/bin/bash
 # try_seeded.sh <patch.diff> <tier> <property ids...>
-# applies a seeded change to /repo, runs the named checks without touching the evidence files, reverts /repo.
-patch=${1:?patch}; tier=${2:-quick}; shift 2
+# applies a seeded change to a SCRATCH WORKTREE of /repo (never to /repo itself), points the checks at it (VERIF_REPO),
+# runs them without touching the evidence files, and reverts the worktree.  KEEP_TRY_REPO=1 keeps the worktree for the next call.
+patch=$(readlink -f "${1:?patch}"); tier=${2:-quick}; shift 2
 cd "$(dirname "${BASH_SOURCE[0]}")/.."
-if ! git -C /repo diff --quiet; then echo "refusing: /repo has uncommitted changes"; exit 2; fi
-if ! git -C /repo apply "$patch"; then echo "patch does not apply"; exit 2; fi
-trap 'git -C /repo checkout -- . ' EXIT
+T=${TRY_REPO:-/tmp/jsim-try-repo}
+if [ ! -d "$T/.git" ] && [ ! -f "$T/.git" ]; then
+	git -C /repo worktree prune
+	git -C /repo worktree add -q --detach "$T" HEAD || { echo "cannot create scratch worktree"; exit 2; }
+fi
+git -C "$T" checkout -q --detach "$(git -C /repo rev-parse HEAD)" 2>/dev/null
+git -C "$T" checkout -q -- .
+if ! git -C "$T" apply "$patch"; then echo "patch does not apply"; exit 2; fi
+cleanup() { git -C "$T" checkout -q -- . ; [ -n "${KEEP_TRY_REPO:-}" ] || git -C /repo worktree remove --force "$T"; }
+trap cleanup EXIT
+export VERIF_REPO=$T
 for id in "$@"; do
 	start=$(date +%s)
 	out=$(bash scripts/check.sh "$id" "$tier" --no-evidence 2>/dev/null); st=$?
